@@ -131,8 +131,8 @@ pub fn replay(s: &mut Summary, v: &V) {
 
 /// random strings up to ~40 bytes, full forward / backward / (one-char) mixed histories
 pub fn record(rng: &mut SmallRng, n_events: usize, out: &mut dyn Write) {
-    let alpha: [&str; 5] = ["a", ",", "ñ", "b", "√"];
-    let delims: [&str; 8] = [",", "a", ",,", "a,", "ñ", "", "aa", "√"];
+    let alpha: [&str; 9] = ["a", ",", "ñ", "b", "√", "\u{ffff}", "\u{7ff}", "\u{10ffff}", "\u{e000}"];
+    let delims: [&str; 13] = [",", "a", ",,", "a,", "ñ", "", "aa", "√", "aa,", "a,a", "aab", "\u{ffff}", ""];
     let mut left = n_events;
     while left > 0 {
         let n = rng.gen_range(0..=20);
